@@ -776,6 +776,46 @@ func runScenario(sc *Scenario) {
 						"cs": atomic.LoadInt32(&closeStarted), "msg": emsg(err), "sd": sd})
 				}
 			}
+			if sc.Mode != "forced" {
+				return
+			}
+			// forced schedules: once its scheduled reads are done the reader looks at the END of the log through every
+			// call there is - the entry being appended right now, LastIndex, FirstIndex, that entry again. Where the writer
+			// is parked in the middle of a call (the co-location witnesses continued with this reader alone), these reads
+			// see a half-published operation; each must be justified by a state of the log and, in this order, never by
+			// an older state than the one before (ConcJudge!ReadsWentBack).
+			for k := 0; k < 4; k++ {
+				from := atomic.LoadInt64(&done)
+				amu.Lock()
+				hi := abs.last() + 1
+				amu.Unlock()
+				switch k {
+				case 0, 3:
+					var lg raft.Log
+					err := wd.w.GetLog(hi, &lg)
+					to := atomic.LoadInt64(&started)
+					cid := 0
+					if err == nil {
+						cid = wd.pool.Identify(hi, &lg)
+					}
+					sd := int64(1 << 30)
+					if wd.fs != nil {
+						sd = atomic.LoadInt64(&wd.fs.SyncDone)
+					}
+					emit(map[string]any{"ev": "read", "p": r, "kind": "get", "idx": hi, "res": class(err), "val": cid, "from": from, "to": to,
+						"cs": atomic.LoadInt32(&closeStarted), "msg": emsg(err), "sd": sd})
+				case 1:
+					v, err := wd.w.LastIndex()
+					to := atomic.LoadInt64(&started)
+					emit(map[string]any{"ev": "read", "p": r, "kind": "last", "idx": 0, "res": class(err), "val": v, "from": from, "to": to,
+						"cs": atomic.LoadInt32(&closeStarted)})
+				case 2:
+					v, err := wd.w.FirstIndex()
+					to := atomic.LoadInt64(&started)
+					emit(map[string]any{"ev": "read", "p": r, "kind": "first", "idx": 0, "res": class(err), "val": v, "from": from, "to": to,
+						"cs": atomic.LoadInt32(&closeStarted)})
+				}
+			}
 		})
 	}
 	for h := 0; h < sc.HotReaders && sc.Mode == "free"; h++ {
